@@ -102,8 +102,29 @@ def extra(ctx):
                        {"c": 0, "entry": "stmt", "code": f"{{ int32_t a = RsV; RddV = a++ + {name}(a) + clo32(RtV); }}"},
                        {"c": 1, "entry": "stmt", "code": f"{{ RddV = {name}(RsV); }}"}]
         hs.append({"id": i, "steps": steps})
+    # a routine that hands ITS OWN parameter on to another routine: the argument is converted to the callee's parameter type like any other
+    # argument (C11 6.5.2.2p7); inner(T2 p) { return p; }, outer(T1 x) { return inner(x); } for type pairs of different width
+    fwd = []
+    pairs = [(a, b) for a in T for b in T if re.search(r"\d+", a).group() != re.search(r"\d+", b).group()]
+    for j, (t1, t2) in enumerate(rnd.sample(pairs, 10 if ctx["tier"] == "quick" else len(pairs))):
+        inner, outer = f"gen_inner_{j}", f"gen_outer_{j}"
+        hs.append({"id": 1000 + j, "steps": [{"c": 0, "entry": "sub", "name": inner, "ret": t2, "params": [f"{t2} p"], "code": "{ return p; }"},
+                                             {"c": 0, "entry": "sub", "name": outer, "ret": t2, "params": [f"{t1} x"], "code": f"{{ return {inner}(x); }}"},
+                                             {"c": 0, "entry": "stmt", "code": f"{{ RddV = {outer}(RssV); }}"}]})
+        fwd.append((1000 + j, inner, outer, t1, t2))
     hres = k2.run_histories(hs)
     bad = []
+    byid = {h["id"]: (h, hr) for h, hr in zip(hs, hres)}
+    for hid, inner, outer, t1, t2 in fwd:
+        h, hr = byid[hid]
+        st = hr.get("steps", [])
+        if len(st) >= 2 and st[1].get("ok"):
+            m_ = re.search(r"hex_" + inner + r"\((.*?)\);", st[1]["text"].replace("\n", " "))
+            w2 = re.search(r"\d+", t2).group()
+            # the call's own argument list (the routine is called with the packet / instruction handles first when it needs them)
+            if not m_ or f"CAST({w2}," not in m_.group(1):
+                bad.append((h["steps"][1], "argument not converted to the parameter type",
+                            f"{outer}({t1} x) passes x to {inner}({t2} p) as `{m_.group(1) if m_ else None}`: no CAST({w2}, ...)"))
     bundled = callee_tmps(k2r.sig) if k2r.sig else {}
     n_calls = 0
     for h, hr in zip(hs, hres):
